@@ -19,9 +19,9 @@ NCHAINS == 16
 Min2(a, b) == IF a < b THEN a ELSE b
 
 \* Expected match sequences of a record for haystack index hi: a function of start+1.
-Expected(r, hi) == AllMatchesFromEveryStart(r.ast, r.ng, r.hays[hi], EnvOf(r.fl))
+Expected(r, hi) == AllMatchesFromEveryStart(r.past, r.ng, r.hays[hi], EnvOf(r.fl))
 
-ExpectedDev(r, hi, dev) == AllMatchesFromEveryStart(r.ast, r.ng, r.hays[hi], EnvDev(r.fl, dev))
+ExpectedDev(r, hi, dev) == AllMatchesFromEveryStart(r.past, r.ng, r.hays[hi], EnvDev(r.fl, dev))
 Deviations == {"D8", "D9", "D10"}
 \* The known deviations (ESSem) each of which alone explains the observation at (hi, s1).
 ExplainedBy(r, hi, s1) == {d \in Deviations : ExpectedDev(r, hi, {d})[s1] = r.obs[hi][s1]}
@@ -67,7 +67,13 @@ IterMismatchesOf(r, hi) ==
                     \/ (x = n + 2 /\ o[x] # <<>>)
                     \/ (o[x] # <<>> /\ o[x][1][1][1] < x - 1)} }
 
-Judgement(r) ==
+\* the record with its tree prepared once (class sets evaluated), as field past
+WithPrepared(r0) ==
+  LET past == Prepare(r0.ast, EnvOf(r0.fl))
+  IN [x \in DOMAIN r0 \cup {"past"} |-> IF x = "past" THEN past ELSE r0[x]]
+
+Judgement(r0) ==
+  LET r == WithPrepared(r0) IN
   IF r.compile.opt # "ok" \/ r.compile.noopt # "ok" THEN [mm |-> {}, nontrivial |-> 0]
   ELSE LET per == [hi \in DOMAIN r.hays |->
                      LET exp == Expected(r, hi)
